@@ -67,10 +67,11 @@ Theorem narrowed_index_1d_write_accepted_refuted :
 Proof. exact narrowed_index_1d_write_accepted_refuted_l. Qed.
 Print Assumptions narrowed_index_1d_write_accepted_refuted.
 
-(* struct members of rank >= 3: every access is rejected, in range or not
+(* struct members of rank >= 3: every read is rejected, in range or not, while the write is accepted
    (known finding C05-struct-member-rank3-rejected) *)
 Theorem member_rank3_in_range_rejected_refuted :
-  exists dims idxs, in_range dims idxs /\ forall m, resolve AMember m dims (size dims) idxs = inr EBounds.
+  exists dims idxs, in_range dims idxs /\ resolve AMember Rd dims (size dims) idxs = inr EBounds /\
+                    resolve AMember Wr dims (size dims) idxs = inl 0.
 Proof. exact member_rank3_in_range_rejected_refuted_l. Qed.
 Print Assumptions member_rank3_in_range_rejected_refuted.
 
